@@ -438,8 +438,9 @@ func BadNoCounterLoop(in io.Reader, out *io.PipeWriter, fn procFn, size int) {
 	_ = out.Close()
 }
 
-// GoodReadFullLoop: the same shape done right (finality = short read).
-func GoodReadFullLoop(in io.Reader, out *io.PipeWriter, fn procFn, size int) {
+// BadReadFullLoop: everything right except that io.ErrUnexpectedEOF (which io.ReadFull
+// cannot tell from a failing source) is treated as end of input.
+func BadReadFullLoop(in io.Reader, out *io.PipeWriter, fn procFn, size int) {
 	buf := make([]byte, size+1)
 	var seg uint32
 	for {
@@ -485,6 +486,142 @@ func BadWeakenedCheckSeg(k key, out io.Writer, data []byte, num uint32, last boo
 	plain, err := k.aead.Open(data[:0], k.nonce(num, last), data, nil)
 	if err != nil && !last {
 		return errFailed
+	}
+	_, err = out.Write(plain)
+	return err
+}
+
+// ---- nonce layouts ---------------------------------------------------------
+
+// nonceHand: hand-rolled big-endian counter, done right.
+func (k key) nonceHand(num uint32, last bool) []byte {
+	n := make([]byte, 12)
+	copy(n[:7], k.prefix)
+	n[7] = byte(num >> 24)
+	n[8] = uint8(num>>16) & 0xff
+	n[9] = byte(uint64(num) >> 8)
+	n[10] = byte(num)
+	n[len(n)-1] = lastByte(last)
+	return n
+}
+
+// nonceDup: the second byte repeats num>>24 (num>>16 never stored).
+func (k key) nonceDup(num uint32, last bool) []byte {
+	n := make([]byte, 12)
+	copy(n[:7], k.prefix)
+	n[7] = byte(num >> 24)
+	n[8] = byte(num >> 24)
+	n[9] = byte(num >> 8)
+	n[10] = byte(num)
+	n[11] = lastByte(last)
+	return n
+}
+
+// nonceSameOffset: two counter bytes land on the same offset.
+func (k key) nonceSameOffset(num uint32, last bool) []byte {
+	n := make([]byte, 12)
+	copy(n[:7], k.prefix)
+	n[7] = byte(num >> 24)
+	n[8] = byte(num >> 16)
+	n[9] = byte(num >> 8)
+	n[9] = byte(num)
+	n[11] = lastByte(last)
+	return n
+}
+
+// nonceFlagOverlap: the finality byte overwrites the low counter byte.
+func (k key) nonceFlagOverlap(num uint32, last bool) []byte {
+	n := make([]byte, 12)
+	copy(n[:7], k.prefix)
+	binary.BigEndian.PutUint32(n[8:12], num)
+	if last {
+		n[11] = 1
+	} else {
+		n[11] = 0
+	}
+	return n
+}
+
+// noncePrefixAfter: the prefix is copied after the counter and covers it.
+func (k key) noncePrefixAfter(num uint32, last bool) []byte {
+	n := make([]byte, 12)
+	binary.LittleEndian.PutUint32(n[4:8], num)
+	copy(n[0:7], k.prefix)
+	n[11] = lastByte(last)
+	return n
+}
+
+func GoodHandRolledNonceSeg(k key, out io.Writer, data []byte, num uint32, last bool) error {
+	plain, err := k.aead.Open(data[:0], k.nonceHand(num, last), data, nil)
+	if err != nil {
+		return errFailed
+	}
+	_, err = out.Write(plain)
+	return err
+}
+
+func BadNonceDupShiftSeg(k key, out io.Writer, data []byte, num uint32, last bool) error {
+	plain, err := k.aead.Open(data[:0], k.nonceDup(num, last), data, nil)
+	if err != nil {
+		return errFailed
+	}
+	_, err = out.Write(plain)
+	return err
+}
+
+func BadNonceSameOffsetSeg(k key, out io.Writer, data []byte, num uint32, last bool) error {
+	plain, err := k.aead.Open(data[:0], k.nonceSameOffset(num, last), data, nil)
+	if err != nil {
+		return errFailed
+	}
+	_, err = out.Write(plain)
+	return err
+}
+
+func BadNonceFlagOverlapSeg(k key, out io.Writer, data []byte, num uint32, last bool) error {
+	plain, err := k.aead.Open(data[:0], k.nonceFlagOverlap(num, last), data, nil)
+	if err != nil {
+		return errFailed
+	}
+	_, err = out.Write(plain)
+	return err
+}
+
+func BadNoncePrefixAfterSeg(k key, out io.Writer, data []byte, num uint32, last bool) error {
+	plain, err := k.aead.Open(data[:0], k.noncePrefixAfter(num, last), data, nil)
+	if err != nil {
+		return errFailed
+	}
+	_, err = out.Write(plain)
+	return err
+}
+
+// ---- success without authentication ---------------------------------------
+
+// BadEarlyNilSeg: a stub not longer than the tag is skipped with a nil error.
+func BadEarlyNilSeg(k key, out io.Writer, data []byte, num uint32, last bool) error {
+	if len(data) <= k.aead.Overhead() {
+		return nil
+	}
+	plain, err := k.aead.Open(data[:0], k.nonce(num, last), data, nil)
+	if err != nil {
+		return errFailed
+	}
+	_, err = out.Write(plain)
+	return err
+}
+
+// GoodShortIsErrorSeg: the same early exit, reporting an error.
+func GoodShortIsErrorSeg(k key, out io.Writer, data []byte, num uint32, last bool) error {
+	if len(data) < k.aead.Overhead() {
+		return fmt.Errorf("segment of %d bytes is shorter than the tag", len(data))
+	}
+	plain, err := k.aead.Open(data[:0], k.nonce(num, last), data, nil)
+	if err != nil {
+		return errFailed
+	}
+	if len(plain) == 0 {
+		return nil
 	}
 	_, err = out.Write(plain)
 	return err
